@@ -107,10 +107,39 @@ func genCase(t *rapid.T) Case {
 		if rapid.IntRange(0, 4).Draw(t, "dershaped") == 0 {
 			content = gen.DERShaped(t)
 		}
+		shape := ""
+		if o.NoCerts && rapid.Bool().Draw(t, "certfile") {
+			// openssl ... -nocerts -certfile ca.pem: certificates are included, the signer's is not among them
+			o.OnlyCerts = [][]byte{gen.FixedIdents()[(id.Key+3+10)%10].Cert.Raw}
+			shape = ",certfile_only"
+		}
 		sig, err := seeds.Emulate(id, content, o)
 		if err != nil {
 			t.Fatalf("emulate: %v", err)
 		}
+		if rapid.IntRange(0, 5).Draw(t, "twosigners") == 0 {
+			// openssl ... -signer a.pem -signer b.pem: two signer infos over the same content; each signer's certificate
+			// has to verify, whichever comes first in the SET
+			second := gen.FixedIdents()[(id.Key+1+10)%10]
+			if second.Cert.Equal(id.Cert) {
+				second = gen.FixedIdents()[(id.Key+2+10)%10]
+			}
+			o2 := o
+			o2.OnlyCerts = nil
+			sig2, err := seeds.Emulate(second, content, o2)
+			if err != nil {
+				t.Fatalf("emulate: %v", err)
+			}
+			merged, err := seeds.AddSigner(sig, sig2)
+			if err != nil {
+				t.Fatalf("merge: %v", err)
+			}
+			sig, shape = merged, shape+",two_signers"
+			if rapid.Bool().Draw(t, "verify_second") {
+				id = second
+			}
+		}
+		typed += shape
 		return Case{Source: fmt.Sprintf("emulated:cms=%v,attached=%v,caps=%v,nocerts=%v,extra=%d", o.CMS, o.Attached, o.SMIMECaps, o.NoCerts, o.ExtraAttr) + typed, Sig: sig, Content: content, Cert: id.Cert.Raw, Key: id.Key, Detached: !o.Attached, TZMin: tz(t)}
 	default: // sbsign / sbvarsign artefacts
 		fx := seeds.Fixtures()
@@ -225,9 +254,20 @@ func checkCase(c Case) error {
 		return fmt.Errorf("Verify against the signer's certificate fails for a third-party signature (%s, %d signed attributes, attached=%v): %v, %v", c.Source, nAttrs, attached, ok, verr)
 	}
 	// any other certificate must fail
-	others := map[string]*x509.Certificate{"unrelated": gen.FixedIdents()[5].Cert}
-	if cert.Equal(others["unrelated"]) {
-		others["unrelated"] = gen.FixedIdents()[3].Cert
+	others := map[string]*x509.Certificate{}
+	for _, cand := range []int{5, 3, 7, 9, 1} {
+		// an unrelated certificate: one that no signer info of this signature names (a second signer's is not "another")
+		uc := gen.FixedIdents()[cand].Cert
+		named := uc.Equal(cert)
+		for _, si := range sd.Signers {
+			if si.Names(uc) {
+				named = true
+			}
+		}
+		if !named {
+			others["unrelated"] = uc
+			break
+		}
 	}
 	signer := gen.Identity{Key: c.Key, Cert: cert}
 	if tw, err := gen.Twin(signer, (c.Key+2)%8); err == nil {
